@@ -6,6 +6,7 @@ import SakuraVerif.Lemmas.SutotonTerm
 import SakuraVerif.Gen.Consts
 import SakuraVerif.Lemmas.ScriptProgress
 import SakuraVerif.Lemmas.ScriptCheck
+import SakuraVerif.Lemmas.LexTerm
 /-! # C07 — compilation never crashes or hangs (what the model can carry; partial)
 
 Whether the *process* panics, aborts or hangs is a fact about the running Rust code; it is decided
@@ -16,6 +17,10 @@ Unicode) under a worker supervisor.  What the model carries, layer by layer:
 * **termination**: the loop machine of `exec` halts on every well-formed nest of loops (C05); WHILE
   and FOR stop at the iteration limit (C11); the sutoton preprocessor consumes at least one
   character per step once empty words are rejected, so `length + 1` steps always suffice;
+* **lexer** (literal model `Model.Lexer`, tied by the `lexer` stream on raw texts): every arm of the main loop consumes its command
+  character before it continues and every nested block (`Sub{…}`, tuplets) is strictly shorter than the text it is cut from, so
+  `length + 1` steps always suffice (`C07_lexer_terminates`); the proof is arm by arm, and it is the arm of `{` where it failed
+  before the repair e3063ef (a full-width brace left the block containing itself);
 * **script layer** (literal model `Model.ScriptExec`, tied by the streams `scriptexec`/`exprexec`): every program whose
   function table has no call cycle finishes — the fuel `needList` computes from the text suffices and more changes nothing,
   because the counter cuts `WHILE`/`FOR` off after `maxLoop` passes — and on lexer-shaped programs the run never reaches the
@@ -69,6 +74,20 @@ theorem C07_arms_progress (items : List Sut.Item) (h : Sut.NonEmptyNames items) 
     (Sut.getTokenS sp (c :: cs)).2.length < (c :: cs).length ∧ (Sut.defineWord items cs).2.length ≤ cs.length ∧
     (∀ it, Sut.firstMatch items (c :: cs) = some it → 1 ≤ it.name.length) :=
   ⟨Sut.getTokenS_len_lt sp c cs hsp, Sut.defineWord_len items cs, fun it hf => Sut.firstMatch_pos items h _ it hf⟩
+
+/-- **the lexer finishes**: for every text, line and chord flag, any fuel above the length of the text gives the answer that
+    `length + 1` gives — so the `none` the model may answer at that fuel always means "outside the modelled subset", never "ran out
+    of steps", and `lex`, which passes exactly `length + 1`, is total in the sense that matters -/
+theorem C07_lexer_terminates (tb : Int) (text : List Nat) (ln : Int) (harm : Bool) (extra : Nat) :
+    Lx.lexLoop tb (text.length + 1 + extra) text ln harm = Lx.lexLoop tb (text.length + 1) text ln harm :=
+  Lx.lexLoop_fuel_stable tb text ln harm extra
+
+/-- the reason, one step at a time: after the command character `c` the loop asks its continuation only about texts no longer
+    than the rest `cs` — two continuations that agree on those give the same answer for `c :: cs` -/
+theorem C07_lexer_step_consumes (tb : Int) (f g c : Nat) (cs : List Nat) (ln : Int) (harm : Bool)
+    (h : ∀ t l b, t.length ≤ cs.length → Lx.lexLoop tb f t l b = Lx.lexLoop tb g t l b) :
+    Lx.lexLoop tb (f + 1) (c :: cs) ln harm = Lx.lexLoop tb (g + 1) (c :: cs) ln harm :=
+  Lx.lexLoop_congr tb f g c cs ln harm h
 
 /-- **scripts finish**: for every function table without a call cycle (`rankedB`, decided on the real table by the driver) and
     every token list, the fuel `needList (nfOf fns) toks` — one per list member and nesting level, `maxLoop + 2` per `WHILE`/`FOR`,
